@@ -17,7 +17,7 @@ RULE = ('Part order: Hypothesis-generated netlists with open input pins (incl. p
         'includes but does not pass through non-origin state elements, nothing outside the unrestricted backward reachability, readers before drivers. Part locs: port/state name tables from a '
         'naming model (index styles [i], _i_, _i, two dimensions, gaps, indices >= 10, shared prefixes, scalars) -> io_locs/s_locs(prefix) equal '
         'the table computed from the model (int, LSB..MSB list, nested lists sorted by base name, None). non-trivial: order: a node with an open pin '
-        'next to a connected one; the look-ups are repeated after the ports were re-ordered in place; locs: an index >= 10 or two dimensions; distinct by SHA-1 of the case. In the order part latches without a used QN enter as NanGate DLH_X1/X2 cells and become primitives through resolve_tlib_cells().')
+        'next to a connected one; the look-ups are repeated after the ports were re-ordered in place; locs: an index >= 10 or two dimensions; distinct by SHA-1 of the case. In the order part latches without a used QN enter as NanGate DLH_X1/X2 cells and become primitives through resolve_tlib_cells(). Base names of the look-up part include hierarchy dividers and ~ (top.data, u1/q, dat~l).')
 ASSUMPTIONS = ['every bus has a fixed number of dimensions and no scalar shares its base name with a bus (otherwise the documented lookup is ambiguous)',
                'base names are letters only and end in a letter']
 
@@ -196,7 +196,7 @@ def prop_order(case):
 
 # --------------------------------------------------------------------------------------------- locs
 
-BASES = ['data', 'addr', 'q', 'dataout', 'datain', 'd', 'ack', 'sel', 'state', 'stat', 'dat', 'clk']
+BASES = ['data', 'addr', 'q', 'dataout', 'datain', 'd', 'ack', 'sel', 'state', 'stat', 'dat', 'clk', 'top.data', 'u1/q', 'dat~l', 'top.en']      # the last four: hierarchy dividers and the ~ of names made by substitute()
 STYLES1 = ['[{}]', '_{}_', '_{}']
 STYLES2 = ['[{}][{}]', '_{}__{}_', '[{}]_{}_']
 
